@@ -288,6 +288,36 @@ def check(model, tier):
     else:
         run.ok("R18.1", "execute:short-circuits")
     run.assume("leaf payloads supplied by callers are RowIterable objects whose __iter__ can be called repeatedly")
+    # ---- R18.7 forcing methods pass over their own rows once
+    run.rule("R18.7", "to_mapping / to_sequence / materialized (every override) start at most one iteration of `self` on any path: a second pass (a consistency check, a len(list(self))) runs the whole upstream pipeline again", 3)
+    for c in m.subclasses(base):
+        for f in c.methods.values():
+            if f.name not in forcing:
+                continue
+            worst = 0
+            worst_node = None
+            for p in ctx.paths(f):
+                cnt = 0
+                for s in p.steps:
+                    for e in step_exprs(s):
+                        if e is not None:
+                            fx = _forcing_exprs(e, {"self"}, forcing - {f.name}) + [
+                                g for g in ast.walk(e) if isinstance(g, ast.GeneratorExp) and src(g.generators[0].iter) == "self"
+                            ]
+                            fx = list({id(x): x for x in fx}.values())
+                            # a generator expression handed to an exhausting call is counted once (through the call)
+                            fx = [x for x in fx if not (isinstance(x, ast.GeneratorExp) and any(isinstance(y, ast.Call) and x in y.args for y in fx))]
+                            cnt += len(fx)
+                            if fx and cnt > worst:
+                                worst_node = fx[-1]
+                    if s.kind == "loop" and s.value and isinstance(s.node, ast.For) and src(s.node.iter) == "self":
+                        cnt += 1
+                worst = max(worst, cnt)
+            inst = f"{c.name}.{f.name}:one-pass"
+            if worst > 1:
+                run.fail("R18.7", inst, f"{c.name}.{f.name} starts {worst} iterations of its own rows on one path: every deduplication / materialization then consumes its input that many times", fi=f, node=worst_node)
+            else:
+                run.ok("R18.7", inst, {"passes": worst})
     from ..rules import dispatch as _dispatch
 
     _dispatch.r08_1_totality(ctx, rule="R18.5", scope="iteration")
